@@ -113,6 +113,7 @@ def make_args(symspec, space):
     ["b", "bytes", N]            N symbolic bytes
     ["v", "int", lo, hi]         symbolic int, lo <= v < hi
     ["s", "ascii", N]            str of N symbolic code points 0..127
+    ["b", "template", hex, [i..]] the bytes of `hex` with the listed positions symbolic
     """
     args = {}
     for spec in symspec:
@@ -123,6 +124,19 @@ def make_args(symspec, space):
                 v = z3.Int("%s_%d%s" % (name, i, space.uniq()))
                 space.add(z3.And(v >= 0, v < 256))
                 vals.append(SymbolicInt(v))
+            args[name] = SymbolicBytes(vals)
+        elif kind == "template":
+            # concrete bytes with designated free positions symbolic
+            base = bytes.fromhex(spec[2])
+            free = set(spec[3])
+            vals = []
+            for i, c in enumerate(base):
+                if i in free:
+                    v = z3.Int("%s_%d%s" % (name, i, space.uniq()))
+                    space.add(z3.And(v >= 0, v < 256))
+                    vals.append(SymbolicInt(v))
+                else:
+                    vals.append(c)
             args[name] = SymbolicBytes(vals)
         elif kind == "int":
             v = z3.Int("%s%s" % (name, space.uniq()))
